@@ -24,6 +24,14 @@ pub fn stop_timed_out(h: &Hist, s: u8) -> bool {
     h.st[s as usize].stops.iter().any(|r| r.how != STOP_CLOSE && (r.ms >= 2500 || r.ret == INF))
 }
 
+pub const MARK_SETTLED: u32 = 7;
+
+/// stop() ran into its timeout and the scenario did not wait for the reducer loop to end afterwards
+/// (a scenario that does records MARK_SETTLED once the loop's last act, releasing the subscribers, was seen)
+pub fn timed_out_unsettled(h: &Hist, s: u8) -> bool {
+    stop_timed_out(h, s) && !h.evs.iter().any(|e| e.k == K::Mark && e.idx == MARK_SETTLED)
+}
+
 // ---------------------------------------------------------------------------------------------
 // C01
 
@@ -130,7 +138,7 @@ pub fn c01(h: &Hist, s: u8, v: &mut Verdicts) {
     let cfg = &h.cfg[s as usize];
     let f = fold(h, s, v, true);
     v.evaluated.insert("C01");
-    let timed_out = stop_timed_out(h, s);
+    let timed_out = timed_out_unsettled(h, s);
     if timed_out {
         v.inconcl("C01", "stop() hit its timeout".into());
     }
@@ -307,7 +315,7 @@ pub fn c02(h: &Hist, s: u8, v: &mut Verdicts) {
 pub fn c03(h: &Hist, s: u8, v: &mut Verdicts) {
     let sh = &h.st[s as usize];
     v.evaluated.insert("C03");
-    if stop_timed_out(h, s) {
+    if timed_out_unsettled(h, s) {
         v.inconcl("C03", "stop() hit its timeout".into());
         return;
     }
@@ -562,7 +570,7 @@ pub fn c07(h: &Hist, s: u8, v: &mut Verdicts) {
         }
     }
     // 2. nobody registered before the dispatch is left out
-    let timed_out = stop_timed_out(h, s);
+    let timed_out = timed_out_unsettled(h, s);
     let mut late_reg_then_dispatch = 0u64;
     let regs: Vec<&Ev> = h.evs.iter().filter(|e| e.k == K::AddRet && e.store == s).collect();
     let uinv: HashMap<u32, u64> = h.evs.iter().filter(|e| e.k == K::UInv).map(|e| (e.idx, e.seq)).collect();
